@@ -288,7 +288,9 @@ def voteRule (c : RCfg) (view : Nat) (b : Block) (agg : Option AggQC) : M Bool :
       return !(parent.view < s.lock.view)
   | .fast =>
     match agg with
-    | some _ =>
+    | some a =>
+      -- `fix:` 02b12f6 — the aggregate QC must stem from the preceding view (or a later one)
+      if a.view + 1 < b.view then return false
       match ← getBlock b.qc.hash with
       | some hqc => extendsM b hqc
       | none => return false
